@@ -585,8 +585,16 @@ func (w *treeWorld) txnOp(tx *treeTxn) bool {
 	switch c.Weighted([]int{10, 3, 5, 2, 8, 6, 3, 3, 3, 3, 4}) {
 	case 8: // burst of inserts: grows nodes past every size threshold within one transaction
 		n := 5 + c.Choose(60)
+		deep := len(w.keys) > 34 && strings.HasPrefix(w.keys[len(w.keys)-4], "zzzzzzzz")
+		if deep {
+			n = len(w.keys) // a deep chain is filled completely
+			w.probe("deep-chain-filled")
+		}
 		for i := 0; i < n; i++ {
 			k := w.key()
+			if deep {
+				k = w.keys[i]
+			}
 			w.nextID++
 			v := w.nextID * 10
 			old, had := tx.txn.Insert(kb(k), v)
@@ -879,7 +887,17 @@ func keyUniverse(c *simcore.Choices) []string {
 			out = append(out, s)
 		}
 	}
-	switch c.Choose(4) {
+	switch c.Choose(5) {
+	case 4:
+		// a chain of nested prefixes: every key is a prefix of the next, paths of 34-46 nodes (deeper than
+		// any fixed-size path buffer of 32), plus a few branches off the chain
+		n := 34 + c.Choose(13)
+		for i := 0; i <= n; i++ {
+			add(strings.Repeat("z", i))
+		}
+		add(strings.Repeat("z", n/2) + "a")
+		add(strings.Repeat("z", n-1) + "a")
+		add("a")
 	case 0:
 		for _, s := range []string{"", "a", "b", "aa", "ab", "ba", "bb", "aab", "abb", "aba", "baa", "abab", "aaaa", "c", "ca", "abc"} {
 			add(s)
